@@ -23,5 +23,6 @@ HostLens == {0, 1, 2, 3, 4}
 AllKinds == {"tx", "g2", "g3"}
 MalAll == {"blk", "tx", "batch", "blkreq", "blkresp", "peermsg", "ltraw", "ltdup"}
 MalNet == {"dlreply", "dlserve", "peerreply", "peerserve", "proof"}
+MalEvery == MalAll \cup MalNet
 MalNone == {}
 ====
